@@ -75,6 +75,9 @@ def install():
     from virocon.intervals import IntervalSlicer
 
     M.wrap(IntervalSlicer, "slice_", post=_post_slice, tag="c09")
+    # "the observations whose conditioning value falls in the interval": the intervals are the slicer's documented ones,
+    # so every slice_ call made inside a fit is also judged by the slicer oracle of C10 (configured range, exactly one)
+    slicemon.install()
     M.wrap(Distribution, "fit", pre=_pre_dfit, post=_post_dfit, tag="c09")
     M.wrap(DependenceFunction, "fit", post=_post_depfit, tag="c09", outermost_only=False)
 
@@ -144,9 +147,9 @@ def _make_slicer(case, rng, n):
 
     mnp = int(max(20, n // 60))
     if case["slicer"] == "woi":
-        return lambda: WidthOfIntervalSlicer(width=float(cfg["w"]), reference=cfg["ref"], right_open=cfg["ro"], min_n_points=mnp, min_n_intervals=3), (cfg := {"w": rng.choice([0.5, 0.3, 0.7, 1.0]), "ref": str(rng.choice(["center", "left", "right"])), "ro": bool(rng.integers(2))})
+        return lambda: slicemon.remember_configuration(WidthOfIntervalSlicer(width=float(cfg["w"]), reference=cfg["ref"], right_open=cfg["ro"], value_range=cfg["vr"], min_n_points=mnp, min_n_intervals=3)), (cfg := {"w": rng.choice([0.5, 0.3, 0.7, 1.0]), "ref": str(rng.choice(["center", "left", "right"])), "ro": bool(rng.integers(2)), "vr": [None, None, (1.0, 3.0), (0.5, None), (None, 3.5), (0.6, 2.8)][int(rng.integers(6))]})
     if case["slicer"] == "noi":
-        return lambda: NumberOfIntervalsSlicer(n_intervals=int(cfg["k"]), reference=cfg["ref"], include_max=cfg["im"], min_n_points=mnp, min_n_intervals=3), (cfg := {"k": rng.choice([6, 10, 15]), "ref": str(rng.choice(["center", "left", "right"])), "im": bool(rng.integers(2))})
+        return lambda: slicemon.remember_configuration(NumberOfIntervalsSlicer(n_intervals=int(cfg["k"]), reference=cfg["ref"], include_max=cfg["im"], value_range=cfg["vr"], min_n_points=mnp, min_n_intervals=3)), (cfg := {"k": rng.choice([6, 10, 15]), "ref": str(rng.choice(["center", "left", "right"])), "im": bool(rng.integers(2)), "vr": [None, None, (0.5, 3.0), (0.0, 3.5)][int(rng.integers(4))]})
     return lambda: PointsPerIntervalSlicer(n_points=int(cfg["np"]), last_full=cfg["lf"], min_n_intervals=3), (cfg := {"np": max(40, n // int(rng.choice([5, 8, 12]))), "lf": bool(rng.integers(2))})
 
 
